@@ -1459,6 +1459,9 @@ def _round(eng, st, recv, args, kwargs):
 
 @bf("id")
 def _id(eng, st, recv, args, kwargs):
+    if args and isinstance(args[0], R) and st.obj(args[0]).meta.get("tag") == "cachenode":
+        # identity of a heap object of the cache fixture: equal exactly for the same object
+        return eng.ok(st, C(1000 + args[0].addr))
     v = P.fresh("int", "id")
     st.axiom(v.t > 0)
     return eng.ok(st, v)
